@@ -9,6 +9,7 @@ Verdict "exhausted" is only issued when the decision tree was fully explored wit
 anything else is "inconclusive".  Nothing is concretised silently: __index__/__hash__/__int__/__format__
 of a SymInt raise `Concretisation` (a BaseException so that no `except Exception` can swallow it).
 """
+import sys
 import time
 import z3
 
@@ -207,10 +208,17 @@ class Engine:
             self.concrete_inputs = {}
             self.path_two_sided = 0
             self.path_note = None
+            self.soft = []
             Engine.cur = self
             cut = False
             try:
-                fn(self)
+                try:
+                    fn(self)
+                finally:
+                    if self.soft and not isinstance(sys.exc_info()[1], (Cut, Infeasible, HarnessError, Concretisation, BoundExceeded)):
+                        vals = self.model_values()
+                        for aid, det in self.soft:
+                            self.violations.append({"assert": aid, "detail": det, "inputs": vals, "note": self.path_note})
             except Violation as v:
                 vals = self.model_values()
                 self.violations.append({"assert": v.assert_id, "detail": str(v.detail), "inputs": vals,
@@ -407,10 +415,18 @@ def truth(x):
     return True if x else False
 
 
-def require(cond, assert_id, detail=""):
-    """assertion site: a feasible falsifying side ends the path with a Violation"""
+SOFT_REAL = []  # soft violations collected outside an exploration (real replays)
+
+
+def require(cond, assert_id, detail="", soft=False):
+    """assertion site: a feasible falsifying side ends the path with a Violation (soft: it is recorded and the path goes on,
+    so that later assertions of the same scenario are still evaluated)"""
     e = Engine.cur
     if e is not None:
         e.reach[assert_id] = e.reach.get(assert_id, 0) + 1
     if not truth(cond):
-        raise Violation(assert_id, detail() if callable(detail) else detail)
+        d = detail() if callable(detail) else detail
+        if soft:
+            (e.soft if e is not None else SOFT_REAL).append((assert_id, str(d)))
+            return
+        raise Violation(assert_id, d)
